@@ -123,13 +123,11 @@ def _cat(v):
 
 
 def _inv0(v):
+    """the validation loop iterates over all batch and unobserved plates (in whichever order the two lists are joined): the first `it` items of
+    WHAT IS BEING ITERATED are single-sample plates"""
     j = z3.Int("j!0")
-    B, U = v.batch_plates.seq, v.unobserved_plates.seq
-    # iterating batch_plates + unobserved_plates: the first `it` of the concatenation are single-sample
-    return [("single_batch", z3.ForAll([j], z3.Implies(z3.And(j >= 0, j < v.it, j < B.length), nus(z3.Select(B.cols, j)) == 1),
-                                        patterns=[z3.Select(B.cols, j)])),
-            ("single_unobs", z3.ForAll([j], z3.Implies(z3.And(j >= 0, j + B.length < v.it, j < U.length), nus(z3.Select(U.cols, j)) == 1),
-                                        patterns=[z3.Select(U.cols, j)]))]
+    X = v.iterated.seq
+    return [("plates_seen_so_far_hold_one_sample", z3.ForAll([j], z3.Implies(z3.And(j >= 0, j < v.it), nus(z3.Select(X.cols, j)) == 1), patterns=[z3.Select(X.cols, j)]))]
 
 
 c.loop("for#0", invariant=_inv0)
